@@ -644,8 +644,16 @@ func (c *FnCtx) scanWrites(nodes []ast.Node) *loopInfo {
 			if o := info.Uses[x]; o != nil {
 				li.assignedVars[o] = true
 				if v, ok := o.(*types.Var); ok && c.addrTaken(v) {
-					n, _ := c.cellArr(v.Type())
-					li.heapBases[n] = true
+					if isStructType(v.Type()) {
+						s := v.Type().Underlying().(*types.Struct)
+						for i := 0; i < s.NumFields(); i++ {
+							n, _ := c.fieldArr(v.Type(), s.Field(i).Name())
+							li.heapBases[n] = true
+						}
+					} else {
+						n, _ := c.cellArr(v.Type())
+						li.heapBases[n] = true
+					}
 				}
 				if v, ok := o.(*types.Var); ok && v.Pkg() != nil && v.Parent() == v.Pkg().Scope() {
 					li.heapBases["G!"+v.Pkg().Name()+"."+v.Name()] = true
@@ -869,7 +877,7 @@ func (c *FnCtx) evalInvariant(cl *Clause, loop ast.Stmt, st *State) string {
 	}
 	args := map[string]string{}
 	for _, nm := range cl.Params {
-		if g, ok := st.ghost[nm]; ok && (nm == "visited" || nm == "idx") {
+		if g, ok := st.ghost[nm]; ok && (nm == "visited" || nm == "idx" || nm == "ranged") {
 			if _, obj := scope.LookupParent(nm, bodyPos); obj == nil {
 				args[nm] = g
 				continue
@@ -1024,6 +1032,12 @@ func (c *FnCtx) execRange(x *ast.RangeStmt, st *State, label string) Outs {
 	xt := c.typeOf(x.X)
 	invs := c.loopInvariants(x)
 	keyObj, valObj := c.rangeVar(x.Key, x.Tok), c.rangeVar(x.Value, x.Tok)
+	outerGhost := map[string]string{}
+	for _, g := range []string{"visited", "idx", "ranged"} {
+		if v, ok := st.ghost[g]; ok {
+			outerGhost[g] = v
+		}
+	}
 	define := func(s *State, obj types.Object, e ast.Expr, v string) {
 		if e == nil {
 			return
@@ -1059,13 +1073,22 @@ func (c *FnCtx) execRange(x *ast.RangeStmt, st *State, label string) Outs {
 				out.cont[k] = v
 			}
 		}
-		delete(out.normal.ghostSafe(), "visited")
-		delete(out.normal.ghostSafe(), "idx")
+		// the ghost loop variables of this loop end here; those of an enclosing loop are visible again
+		if out.normal != nil {
+			for _, g := range []string{"visited", "idx", "ranged"} {
+				if old, had := outerGhost[g]; had {
+					out.normal.ghost[g] = old
+				} else {
+					delete(out.normal.ghost, g)
+				}
+			}
+		}
 		return out
 	}
 	switch u := xt.Underlying().(type) {
 	case *types.Slice:
 		s := c.name(st, "rs", c.eval(x.X, st), sSlice)
+		st.ghost["ranged"] = s
 		// counter
 		st.ghost["idx"] = "0"
 		if keyObj != nil {
@@ -1226,6 +1249,10 @@ func (s *State) ghostSafe() map[string]string {
 
 func (c *FnCtx) setVarTerm(st *State, obj types.Object, term string) {
 	if b, ok := st.vars[obj]; ok {
+		if b.cell && isStructType(b.typ) {
+			c.storeStructCell(st, b.term, b.typ, term)
+			return
+		}
 		if b.cell {
 			n, s := c.cellArr(b.typ)
 			c.setH(st, n, s, store(c.h(st, n, s), b.term, term))
